@@ -93,6 +93,9 @@ func nxConfigs(part string, thorough bool) []*nxCfg {
 				// timeouts are made at it: they must expire although nothing wakes the replica up
 				Script: append(append(append(append(c12rep([]string{"K1", "K2", "K3"}, 205), "M1", "w1"), c12rep([]string{"K1"}, 12)...), "r1"), c12rep([]string{"K1"}, 12)...),
 				Ticks:  1, Reorders: 1, Horizon: 900},
+			{Name: "ondisk-snappy-batch", N: 3, OnDisk: true, EntrySnappy: true, MaxDev: pick(1, 2), Prefix: nxWarm,
+				// the apply worker of replica 1 is held while three writes commit: they reach the state machine in one batch
+				Script: []string{"z1", "W1", "W1", "W2", "Z1", "H1", "R1", "W2", "H1"}, LazyApplies: 1, Drops: 1, Crashes: pick(0, 1), Horizon: 250},
 			{Name: "notify-commit", N: 3, NotifyCommit: true, MaxDev: pick(2, 3), Prefix: nxWarm, Script: []string{"W1", "W2", "R1", "S1"}, Drops: 2, Stops: 1, LazyApplies: 1, Timeouts: 1, Horizon: 200},
 		}
 	case "c17":
@@ -131,6 +134,9 @@ func nxConfigs(part string, thorough bool) []*nxCfg {
 			{Name: "reads-follower", N: 3, MaxDev: pick(2, 3), Prefix: nxWarm, Script: []string{"W2", "R3", "R1", "W3", "R2", "H1"}, Timeouts: 2, Crashes: 1, Drops: 3, LazyApplies: 1, Heartbeats: 1, Horizon: 150},
 			{Name: "snapshot-catchup-read", N: 3, SnapshotEntries: 2, Compaction: 1, MaxDev: pick(1, 2), Prefix: nxWarm,
 				Script: []string{"M4", "W1", "W2", "W1", "W2", "E", "H1", "H1", "R3", "W1", "R3", "H1"}, LazyApplies: 1, Drops: 1, Crashes: 1, Reorders: 1, Horizon: 300},
+			{Name: "ondisk-snappy-lagging-follower", N: 3, OnDisk: true, EntrySnappy: true, MaxDev: pick(1, 2), Prefix: nxWarm,
+				// replica 3 is cut off while three writes commit, then gets and applies them in one batch
+				Script: []string{"M4", "W1", "W2", "W1", "E", "H1", "H1", "R3", "W2", "R3", "H1"}, LazyApplies: 1, Drops: 1, Crashes: 1, Horizon: 300},
 			{Name: "ondisk-stream-catchup-read", N: 3, OnDisk: true, SnapshotEntries: 2, Compaction: 1, MaxDev: pick(1, 2), Prefix: nxWarm,
 				Script: []string{"M4", "W1", "W2", "W1", "W2", "E", "H1", "H1", "R3", "W1", "R3", "C3", "H1", "R3", "W2", "H1"}, LazyApplies: 1, Drops: 1, Crashes: 1, Reorders: 1, Horizon: 400},
 			{Name: "3v+nv-partitioned-old-leader", N: 3, NonVotings: 1, MaxDev: pick(2, 3), Prefix: []string{"T1", "D*", "H1", "D*", "A1:4", "D*", "J4", "D*", "H1", "D*"},
